@@ -59,6 +59,7 @@ type CViolation struct {
 	Msg   string
 	T     int
 	RID   string
+	Other string
 }
 
 // EventRec records one event frame for the ordering monitor (C03).
@@ -91,12 +92,20 @@ type RefClient struct {
 	LastResp            *ClientReq // request answered by the most recent frame (nil for events)
 	curRID              string     // resource the frame being processed is about
 	Handovers           []Handover
+	DropLog             []DropRec
 	// Handovers: rid -> list of T at which the rid was (re)handed
 	Dropped map[string]int
 	// UnsubEvents: rid -> count of unsubscribe events
 	UnsubEvents map[string]int
 	// log of direct-count relevant happenings for C08
 	DirectLog []DirectRec
+}
+
+// DropRec records that the client dropped a resource after the frame at T.
+type DropRec struct {
+	RID   string
+	T     int
+	Cause string // action of the response, or "event", whose processing made the client drop it
 }
 
 // Handover records that a frame carried data (or an error) for a rid.
@@ -353,6 +362,11 @@ func (c *RefClient) gc(t int) {
 		if !reach[rid] {
 			delete(c.Held, rid)
 			c.Dropped[rid]++
+			cause := "event"
+			if c.LastResp != nil {
+				cause = c.LastResp.Action
+			}
+			c.DropLog = append(c.DropLog, DropRec{RID: rid, T: t, Cause: cause})
 		}
 	}
 }
@@ -370,6 +384,7 @@ func (c *RefClient) checkDangling(t int) {
 			if ref, ok := isRef(v); ok {
 				if _, held := c.Held[ref]; !held {
 					c.viol("C02", "dangling_reference", t, "after frame at t=%d resource %s references %s for which the client has neither data nor error", t, rid, ref)
+					c.Viol[len(c.Viol)-1].Other = ref
 				}
 			}
 		}
